@@ -3,3 +3,7 @@ reg("C15", "property-based testing: bounded-exhaustive + Hypothesis-generated se
     "Every generated selector IR (exhaustive to depth 2 over a reduced alphabet, random to depth 3) is rendered in all documented spellings and whitespace variants; all must parse to the identical object whose fields equal the IR's denotation. Exploration: held on N generated IRs, not a proof.",
     "Trusts the IR->text renderer and denotation in vlib/selgen.py (about 300 lines, independent of ptera); only equivalences stated by the docs/tests are asserted.",
     "DESIGN.md section 5 C15")
+reg("C18", "property-based testing / fuzzing: exhaustive token strings (32-token alphabet, length<=4/5) + Hypothesis grammar-based mutation of valid selectors + raw text, allowed-exception oracle with failure bucketing; injected semantic faults must be refused",
+    "Every generated string is pushed through parse, select and probing+activation; the oracle is the list of allowed outcomes of the property (SyntaxError with offset, SelectorError, the documented TypeError; deliberate refusal at activation). Exhaustive below the stated length, sampled beyond. Exploration, not proof.",
+    "Trusts the deliberate-vs-accidental classifier (innermost ptera frame fails on a raise statement) and three tolerated classes listed in the evidence assumptions.",
+    "DESIGN.md section 5 C18")
